@@ -407,7 +407,54 @@ def _check_seam(case, ctx):
         world.rmtree(base)
 
 
+def enumerate_cases(tier, seed):
+    """many connected clients that stay silent (their request processes / threads stay alive) while others are served"""
+    for st_ in ("ForkingTCPServer", "ThreadingTCPServer"):
+        for idle in (10, 39):
+            yield {"mode": "idle-crowd", "servertype": st_, "idle": idle}
+
+
+def _check_idle_crowd(case, ctx):
+    base, root = world.build([["readme.txt", "f", "hello\n"], ["d/a.txt", "f", "a\n"]], "c14")
+    srv = None
+    socks = []
+    fails = []
+    try:
+        srv = live.Server(live.write_conf(os.path.join(base, "s.conf"), root, "full", case["servertype"], timeout=60))
+        for _ in range(case["idle"]):
+            socks.append(live.connect(srv.port, 10))
+        time.sleep(0.3)
+        ctx.nontriv((case["servertype"], case["idle"]))
+        ctx.label("idle-crowd:%s:%d" % (case["servertype"], case["idle"]))
+        ctx.sample(case, cls="idle-crowd")
+        t0 = time.monotonic()
+        for i, (req, tls, want) in enumerate([(b"/readme.txt\r\n", False, b"hello\n"), (b"/d/a.txt\r\n", True, b"a\n"),
+                                               (b"/readme.txt\r\n", False, b"hello\n"), (b"/d/a.txt\r\n", False, b"a\n")]):
+            try:
+                got = live.request(srv.port, req, tls, timeout=8)
+            except Exception as e:  # noqa
+                got = e
+            if got != want:
+                fails.append(Fail("idle-crowd:%s" % case["servertype"],
+                                  "%d clients are connected and silent; request %d (%r) sent meanwhile is not answered within 8 s: %r" % (
+                                      case["idle"], i + 1, req, got if isinstance(got, Exception) else got[:60])))
+                break
+        ctx.count("idle_crowd_requests", 4)
+        return fails
+    finally:
+        for s_ in socks:
+            try:
+                s_.close()
+            except OSError:
+                pass
+        if srv is not None:
+            srv.stop()
+        world.rmtree(base)
+
+
 def check_case(case, ctx):
+    if case["mode"] == "idle-crowd":
+        return _check_idle_crowd(case, ctx)
     if case["mode"] == "burst":
         return _check_burst(case, ctx)
     if case["mode"] == "gated":
